@@ -10,6 +10,7 @@ import Mathlib.Tactic.Linarith
 import Mathlib.Tactic.Ring
 import AITB.Model.VE
 import AITB.Model.VETable
+import AITB.Model.GVE
 import AITB.Props.C14
 
 namespace AITB.VE
@@ -652,5 +653,169 @@ theorem evalGraph_reuse (A : List Nat) (struct rules : List Rule) (a : List Nat)
   intro r hr
   obtain ⟨s, hs, hk⟩ := hsub r hr
   rw [← hk]; exact h4 s hs
+
+/-! ## MultiObjectiveVariableElimination (table-level model `moveRun`, generic GVE loop + MOVE callbacks)
+
+FULL STATEMENT (the property's clause), NOT provable of the code as it is:
+  ∀ A nobj rules, (rules well-formed) → moveValues A rules = moveSpec A nobj rules   (as sets)
+It is refuted below on the model (which the driver shows to agree with the implementation on every generated
+input, including the failing ones): `Global::endCrossSum` drops an agent action matched by no rule.
+What is proved: the final merge (`makeResult`) is right — the cross-sum of the final factors contains exactly the
+sums of one entry per factor, and the closing prune keeps exactly the vectors not dominated by a different one. -/
+
+/-- the code (model) returns {(-3,-4)} where the Pareto set is {(0,0)}: DESIGN §12 #25, harness case 0 -/
+theorem move_absent_entry_counterexample :
+    moveValues [2,2] [⟨[0],[0],[-1,-1]⟩, ⟨[0,1],[0,1],[-2,-3]⟩] = [[-3,-4]] ∧
+    moveSpec [2,2] 2 [⟨[0],[0],[-1,-1]⟩, ⟨[0,1],[0,1],[-2,-3]⟩] = [[0,0]] := by decide +kernel
+
+/-- on full tables the same model gives the Pareto set (a test, by evaluation): two agents, one factor -/
+example : moveValues [2,2] [⟨[0,1],[0,0],[1,0]⟩, ⟨[0,1],[1,0],[0,1]⟩, ⟨[0,1],[0,1],[-1,-1]⟩, ⟨[0,1],[1,1],[1/2,1/2]⟩]
+        = moveSpec [2,2] 2 [⟨[0,1],[0,0],[1,0]⟩, ⟨[0,1],[1,0],[0,1]⟩, ⟨[0,1],[0,1],[-1,-1]⟩, ⟨[0,1],[1,1],[1/2,1/2]⟩] := by
+  decide +kernel
+
+theorem mem_mCrossSumF (l r : MFactor) (hl : l ≠ []) (hr : r ≠ []) (v : List Rat) :
+    v ∈ (mCrossSumF l r).map (·.vals) ↔ ∃ a ∈ l, ∃ b ∈ r, v = vecAdd a.vals b.vals := by
+  have hl' : l.isEmpty = false := by cases l <;> simp_all
+  have hr' : r.isEmpty = false := by cases r <;> simp_all
+  simp only [mCrossSumF, hl', hr', Bool.false_eq_true, if_false, List.mem_map, List.mem_flatMap]
+  constructor
+  · rintro ⟨e, ⟨a, ha, b, hb, rfl⟩, rfl⟩
+    exact ⟨a, ha, b, hb, rfl⟩
+  · rintro ⟨a, ha, b, hb, rfl⟩
+    exact ⟨_, ⟨a, ha, b, hb, rfl⟩, rfl⟩
+
+theorem mCrossSumF_ne_nil (l r : MFactor) (hl : l ≠ []) (hr : r ≠ []) : mCrossSumF l r ≠ [] := by
+  obtain ⟨a, l', rfl⟩ := List.exists_cons_of_ne_nil hl
+  obtain ⟨b, r', rfl⟩ := List.exists_cons_of_ne_nil hr
+  simp [mCrossSumF]
+
+/-- all sums of one entry per final factor, starting from the vectors in `acc` -/
+def sumsOver : List (List Rat) → List MFactor → List (List Rat)
+  | acc, [] => acc
+  | acc, f :: fs => sumsOver (acc.flatMap (fun v => f.map (fun e => vecAdd v e.vals))) fs
+
+/-- **`move_pareto_partial`** (final merge): with a non-empty accumulator and non-empty final factors,
+    `makeResult`'s cross-sum holds exactly the sums of one entry per final factor (as a set). -/
+theorem move_final_cross (fs : List MFactor) : ∀ (acc : MFactor), acc ≠ [] → (∀ f ∈ fs, f ≠ []) →
+    ∀ v, v ∈ (fs.foldl mCrossSumF acc).map (·.vals) ↔ v ∈ sumsOver (acc.map (·.vals)) fs := by
+  induction fs with
+  | nil => intro acc _ _ v; simp [sumsOver]
+  | cons f fs ih =>
+    intro acc hacc hfs v
+    have hf : f ≠ [] := hfs f (List.mem_cons_self ..)
+    simp only [List.foldl_cons, sumsOver]
+    rw [ih (mCrossSumF acc f) (mCrossSumF_ne_nil acc f hacc hf) (fun g hg => hfs g (List.mem_cons_of_mem _ hg)) v]
+    have : ∀ w, w ∈ (mCrossSumF acc f).map (·.vals) ↔ w ∈ (acc.map (·.vals)).flatMap (fun v => f.map (fun e => vecAdd v e.vals)) := by
+      intro w
+      rw [mem_mCrossSumF acc f hacc hf]
+      simp only [List.mem_flatMap, List.mem_map]
+      constructor
+      · rintro ⟨a, ha, b, hb, rfl⟩; exact ⟨a.vals, ⟨a, ha, rfl⟩, b, hb, rfl⟩
+      · rintro ⟨_, ⟨a, ha, rfl⟩, b, hb, rfl⟩; exact ⟨a, ha, b, hb, rfl⟩
+    -- sumsOver only depends on the accumulator as a set
+    have hmono : ∀ (gs : List MFactor) (s t : List (List Rat)), (∀ w, w ∈ s ↔ w ∈ t) → ∀ w, w ∈ sumsOver s gs ↔ w ∈ sumsOver t gs := by
+      intro gs
+      induction gs with
+      | nil => intro s t h w; simpa [sumsOver] using h w
+      | cons g gs ihg =>
+        intro s t h w
+        simp only [sumsOver]
+        apply ihg
+        intro u
+        simp only [List.mem_flatMap]
+        constructor
+        · rintro ⟨x, hx, hu⟩; exact ⟨x, (h x).mp hx, hu⟩
+        · rintro ⟨x, hx, hu⟩; exact ⟨x, (h x).mpr hx, hu⟩
+    exact hmono fs _ _ this v
+
+/-- the closing prune, as modelled: exactly the vectors not weakly dominated by a different one -/
+theorem paretoFront_spec (vs : List (List Rat)) (v : List Rat) :
+    v ∈ paretoFront vs ↔ v ∈ vs ∧ ∀ w ∈ vs, w ≠ v → geAll w v = false := by
+  simp only [paretoFront, List.mem_filter, Bool.not_eq_true', List.any_eq_false, Bool.and_eq_true,
+             bne_iff_ne, ne_eq, not_and, Bool.not_eq_true]
+
+/-! ## UCVE::makeResult
+
+FULL STATEMENT, NOT provable of the code as it is: the joint action assembled by `makeResult` maximises
+`M + sqrt(N·logtA/2)` over all combinations of one entry per final factor.  Refuted below for two final factors
+(= two connected components).  What is proved (`ucve_final_partial`): with ONE final factor the chosen entry is a
+maximiser of ANY objective the comparison `gt` is induced by. -/
+
+theorem firstMax_spec {α : Type} [LinearOrder α] (val : UEntry → α) (gt : UEntry → UEntry → Bool)
+    (hgt : ∀ a b, gt a b = true ↔ val b < val a) :
+    ∀ (es : List UEntry) (best : UEntry),
+      (firstMax gt best es = best ∨ firstMax gt best es ∈ es) ∧
+      val best ≤ val (firstMax gt best es) ∧ ∀ e ∈ es, val e ≤ val (firstMax gt best es)
+  | [], best => by simp [firstMax]
+  | e :: es, best => by
+    simp only [firstMax]
+    by_cases h : gt e best = true
+    · obtain ⟨h1, h2, h3⟩ := firstMax_spec val gt hgt es e
+      simp only [h, if_true]
+      refine ⟨Or.inr ?_, le_trans (le_of_lt ((hgt e best).mp h)) h2, ?_⟩
+      · rcases h1 with h1 | h1
+        · rw [h1]; exact List.mem_cons_self ..
+        · exact List.mem_cons_of_mem _ h1
+      · intro e' he'
+        rcases List.mem_cons.mp he' with rfl | he'
+        · exact h2
+        · exact h3 e' he'
+    · obtain ⟨h1, h2, h3⟩ := firstMax_spec val gt hgt es best
+      have hle : val e ≤ val best := by
+        by_contra hc
+        exact h ((hgt e best).mpr (not_le.mp hc))
+      simp only [h, Bool.false_eq_true, if_false]
+      refine ⟨?_, h2, ?_⟩
+      · rcases h1 with h1 | h1
+        · exact Or.inl h1
+        · exact Or.inr (List.mem_cons_of_mem _ h1)
+      · intro e' he'
+        rcases List.mem_cons.mp he' with rfl | he'
+        · exact le_trans hle h2
+        · exact h3 e' he'
+
+/-- **`ucve_final_partial`**: one final factor (one connected component containing every rule): the reported
+    value/tags are those of an entry of that factor whose objective is maximal among its entries. -/
+theorem ucve_final_partial {α : Type} [LinearOrder α] (val : UEntry → α) (gt : UEntry → UEntry → Bool)
+    (hgt : ∀ a b, gt a b = true ↔ val b < val a) (e : UEntry) (es : List UEntry) :
+    ∃ b ∈ e :: es, ucveMakeResult gt [e :: es] = (b.m + 0, b.n + 0, b.tag ++ []) ∧ ∀ e' ∈ e :: es, val e' ≤ val b := by
+  obtain ⟨h1, h2, h3⟩ := firstMax_spec val gt hgt es e
+  refine ⟨firstMax gt e es, ?_, by simp [ucveMakeResult], ?_⟩
+  · rcases h1 with h1 | h1
+    · rw [h1]; exact List.mem_cons_self ..
+    · exact List.mem_cons_of_mem _ h1
+  · intro e' he'
+    rcases List.mem_cons.mp he' with rfl | he'
+    · exact h2
+    · exact h3 e' he'
+
+/-- two independent agents, tables {(0,1),(7/8,0)} each, logtA = 2 (so the objective is M + sqrt N):
+    `makeResult` returns (0,2) [objective 1.414…]; the combination (7/8,0)+(7/8,0) = (7/4,0) is strictly
+    better (1.75), decided exactly by `sqrtGt`.  Harness case 2; DESIGN §12 #17. -/
+theorem ucve_makeResult_counterexample :
+    let F0 : List UEntry := [⟨0, 1, [(0,0)]⟩, ⟨7/8, 0, [(0,1)]⟩]
+    let F1 : List UEntry := [⟨0, 1, [(1,0)]⟩, ⟨7/8, 0, [(1,1)]⟩]
+    ucveMakeResult (uGt 1) [F0, F1] = (0, 2, [(0,0),(1,0)]) ∧
+    uGt 1 ⟨7/8 + 7/8, 0 + 0, [(0,1),(1,1)]⟩ ⟨0, 2, [(0,0),(1,0)]⟩ = true := by decide +kernel
+
+/-! ## satisfiability of the hypotheses of the main theorems (concrete, non-trivial instance) -/
+
+/-- `ve_correct` / `ve_value_eq_bruteMax` apply to: 4 agents (one in no rule), overlapping + nested +
+    duplicate + negative rules, absent entries; elimination order 3,0,2,1 -/
+example :
+    let A := [2,3,2,2]
+    let rules : List Rule := [⟨[0,1],[1,2],-3/2⟩, ⟨[1],[2],2⟩, ⟨[0,1],[1,2],1/4⟩, ⟨[3],[0],-1/2⟩, ⟨[0,1,3],[0,0,1],5/4⟩]
+    let order := [3,0,2,1]
+    (∀ d ∈ A, 0 < d) ∧ (∀ u ∈ order, u < A.length) ∧ (∀ r ∈ rules, ∀ k ∈ r.keys, k ∈ order) ∧
+    (∀ r ∈ rules, r.WF A) ∧
+    veValue A order rules = 2 ∧ bruteMax A rules = 2 ∧ listOf 4 (veAction A order rules) = [0,2,0,1] := by
+  refine ⟨by decide, by decide, by decide, ?_, by decide +kernel, by decide +kernel, by decide +kernel⟩
+  intro r hr
+  simp only [List.mem_cons, List.mem_nil_iff, or_false] at hr
+  rcases hr with rfl | rfl | rfl | rfl | rfl <;> exact ⟨by decide, (validB_iff _ _).mp (by decide)⟩
+
+/-- the table-level model on the same instance gives the same answer (a test, by evaluation) -/
+example : tveRun [2,3,2,2] [⟨[0,1],[1,2],-3/2⟩, ⟨[1],[2],2⟩, ⟨[0,1],[1,2],1/4⟩, ⟨[3],[0],-1/2⟩, ⟨[0,1,3],[0,0,1],5/4⟩]
+    = ([0,2,0,1], 2) := by decide +kernel
 
 end AITB.VE
